@@ -1,7 +1,7 @@
 SPEC = {
     "claimed": True,
-    "gen": [],
-    "theorems": ['C04_all_histories6', 'C04_all_histories7', 'C04_step6', 'C04_step7', 'C04_refusal6', 'C04_refusal7', 'C04_nonvacuous'],
+    "gen": ["consts", "bitfields", "huffman"],
+    "theorems": ['C04_all_histories6', 'C04_all_histories7', 'C04_bytes6', 'C04_step6', 'C04_step7', 'C04_refusal6', 'C04_refusal7', 'C04_nonvacuous'],
     "allowed_axioms": [],
     "extract": {
         "LibTw2.Model.Conn6": ["step", "needs_tick", "conn6_new"],
